@@ -60,6 +60,8 @@ func (c04) Describe() sim.Description {
 const (
 	nCells   = 32
 	tabInit  = 8
+	// startSlot: where the start function of variant 3 puts the instance's own function before it traps
+	startSlot = 5
 	memMax   = 4
 	gI32     = 0
 	gI64     = 1
@@ -337,7 +339,8 @@ func build(s *spec, specs []*spec) []byte {
 	// functions
 	tI := m.AddType(i32, i32)
 	c := func() *wasmb.Code { return &wasmb.Code{} }
-	idFn := m.AddFunc(i32, i32, nil, c().Call(yieldFn).Drop().LocalGet(0).I32Const(10).I32Mul().GlobalGet(ownG).I32Add().B, "id")
+	// (it also loads from the instance's memory, discarding the value: the memory must be there)
+	idFn := m.AddFunc(i32, i32, nil, c().Call(yieldFn).Drop().LocalGet(0).I32Const(10).I32Mul().GlobalGet(ownG).I32Add().I32Const(8*30).I32Load(0).I32Const(0).I32Mul().I32Add().B, "id")
 	m.AddFunc(i32, i32, nil, c().LocalGet(0).I32Const(8).I32Mul().I32Load(0).B, "rd_cell")
 	m.AddFunc([]wasmb.ValType{wasmb.I32, wasmb.I32}, nil, nil, c().LocalGet(0).I32Const(8).I32Mul().LocalGet(1).I32Store(0).B, "wr_cell")
 	m.AddFunc(nil, i32, nil, c().MemorySize().B, "mem_size")
@@ -397,7 +400,11 @@ func build(s *spec, specs []*spec) []byte {
 	_ = nImpF
 	if s.start > 0 {
 		sc := c().I32Const(8 * 31).I32Const(int32(7000 + s.idx)).I32Store(0)
-		if s.start == 2 {
+		if s.start == 3 {
+			// publishes a function of the half-built instance through the table, then traps
+			sc.I32Const(startSlot).RefFunc(idFn).TableSet(0)
+		}
+		if s.start >= 2 {
 			sc.Unreachable()
 		}
 		st := m.AddFunc(nil, nil, nil, sc.B, "")
@@ -632,7 +639,7 @@ func (r *runner) instantiate(twisted bool) {
 	s.funcImpLast = t.Chance(1, 2)
 	s.elemImp = t.Chance(1, 3)
 	s.ownInit = t.Chance(1, 2)
-	s.start = t.Weighted(6, 2, 1)
+	s.start = t.Weighted(6, 2, 1, 1)
 	s.oobSeg = t.Chance(1, 8)
 	if twisted && len(live) > 0 {
 		var opts []string
@@ -747,7 +754,10 @@ func (r *runner) instantiate(twisted bool) {
 		}
 		if s.start > 0 {
 			in.mem.cells[31] = int32(7000 + idx)
-			if s.start == 2 {
+			if s.start == 3 {
+				in.tab.slots[startSlot] = fnRef{inst: idx} // stays callable: side effects of a failed instantiation persist
+			}
+			if s.start >= 2 {
 				return false
 			}
 		}
